@@ -102,7 +102,8 @@ def one_case(res, rng, case, seed):
         new_order()
         for _ in range(rng.randint(4, 16)):
             # state-directed choice: answer what is outstanding, aim most requests at orders that can take them
-            weights = {"new": 1.0 if len(orders) < 3 else 0.0, "cancel": 1.5, "update": 1.5, "stream": 2.0, "cancel_all": 0.7,
+            n_ready = sum(1 for x in orders if x.bet_id and x.status is not None and x.status.name == "EXECUTABLE" and x.order_type.ORDER_TYPE.name == "LIMIT")
+            weights = {"new": 1.0 if len(orders) < 3 else 0.0, "cancel": 1.5, "update": 1.5, "stream": 2.0, "cancel_all": 3.0 if n_ready >= 2 else 0.7,
                        "place_h": 4.0 if any(v == "place" for v in due.values()) else 0.0,
                        "cancel_h": 3.0 if any(v == "cancel" for v in due.values()) else 0.0,
                        "update_h": 3.0 if any(v == "update" for v in due.values()) else 0.0}
@@ -186,6 +187,12 @@ def one_case(res, rng, case, seed):
                             ops.append("CN:%d" % o._mid)
                     else:
                         reported = [o for o in sub if rng.random() < 0.7]
+                        if len(sub) >= 2 and rng.random() < 0.6:
+                            # the response names some orders of the package and not the others (the handler's "not returned" loop)
+                            k = rng.randint(1, len(sub) - 1)
+                            reported = rng.sample(sub, k)
+                        if reported and len(reported) < len(sub):
+                            res.distribution["betdaq-cancel-response-names-part-of-the-package"] += 1
                         reports = [{"order_id": o.bet_id} for o in reported]
                         last_reported = [id(o) for o in reported]
                         rng.shuffle(reports)
